@@ -313,7 +313,12 @@ func genDataOp(t *rapid.T, dir string, labels []string, first bool, equs []DataO
 		} else {
 			v = rapid.Int64Range(-70000, 70000).Draw(t, "vu")
 		}
-		return DataOp{Kind: "num", Val: v, Text: renderImm(v, rapid.IntRange(0, 2).Draw(t, "vstyle"))}
+		style := rapid.IntRange(0, 3).Draw(t, "vstyle")
+		if style == 3 && v >= 0 {
+			// decimal with leading zeros is still decimal (NASK has no octal notation)
+			return DataOp{Kind: "num", Val: v, Text: fmt.Sprintf("0%d", v)}
+		}
+		return DataOp{Kind: "num", Val: v, Text: renderImm(v, style%3)}
 	case k == 4:
 		txt, v := genConstExprSmall(t)
 		return DataOp{Kind: "num", Val: v, Text: txt}
